@@ -61,8 +61,8 @@ Definition c_prop (p : prop) : chunk := prop_encode p.
 Definition c_properties (ps : properties) : list chunk :=
   c_varint (props_size ps) ::
   match ps with
-  | PSlice l => map c_prop l
-  | PWithCorr c l => c_prop c :: map c_prop l
+  | PSlice l => flat_map prop_chunks l
+  | PWithCorr c l => prop_chunks c ++ flat_map prop_chunks l
   | PEncoded b => [Some b]
   end.
 
